@@ -14,6 +14,13 @@ CLAIMED = {
  "C03": dict(level="other", technique="static analysis: typestate edge extraction from stores (must-guard dataflow with mod-set kill), request/SAP table extraction, writer-table agreement with exact-execution counters over rustc MIR",
    text="Decides for all reply/loss/fault histories of one peripheral: every store to the bring-up state is an edge whose rank rise is at most one and which carries its acknowledgement guard (accepted diagnostics / short confirmation / the four readiness flag tests by PROFIBUS bit value); constructors start Offline and re-addressing resets; per-state request table (SAPs, service, addresses); Set_Prm/Chk_Cfg octet layout with every optional bit written exactly when configured. Does not decide the watchdog factor arithmetic or multi-peripheral interleavings.",
    note="Trusted: " + TB + "; rules/spec_tables.json (DP-V0 constants).", ref="§4-C03"),
+
+ "C08": dict(level="other", technique="static analysis: path-sensitive dataflow with per-path event counters (retry +1/0, fcb.cycle exactly-once by exit class, helper summaries), who-writes on service selector fields, constant table extraction over rustc MIR",
+   text="Decides per-path pairing clauses for every loss/reply history of one peripheral: retry counter +1 on every transmitting exit and 0 on every other, Offline only under retry_count > max_retry_limit and never a send above the limit, fcb.cycle() exactly once on accepting exits and never on rejecting ones (through the diagnostics helper by summary), Offline implies FCB reset, the service selector latched by the transmit handler is not writable through the public API, FrameCountBit tables, FDL reply admission. Does not decide the global multi-peripheral trace property.",
+   note="Trusted: " + TB + "; rules/spec_tables.json (FCB discipline).", ref="§4-C08"),
+ "C10": dict(level="proof", technique="static analysis: interval+zone abstract interpretation of rustc MIR (bounds/overflow/slice obligations), path-sensitive must-guard dataflow for acceptance guards and a closed world of None/Err verdicts",
+   text="Totality of the three decoder functions is proved for every input slice (all Assert and slice-API obligations discharged by the zone domain; reported length within the input; no loops). Acceptance guards (both start delimiters, both length bytes, FC, checksum byte and range, end delimiter) hold on every accepting path class; every None/Err verdict matches an enumerated frame-format reason. The single-byte-corruption (Hamming) argument is not decided.",
+   note="Trusted: " + TB + "; numdom transfer functions; core slice API preconditions as encoded; the debug_assert in TokenTelegram::deserialize is discharged by its only in-crate caller (assumption listed in evidence).", ref="§4-C10"),
 }
 
 NA = {
